@@ -118,6 +118,11 @@ func BuildKeyCert(c rm.Cert) (*key_certificate.KeyCertificate, bool, error) {
 // BuildKAC builds a KeysAndCert through NewKeysAndCert. ok=false when no constructor path
 // exists for the shape (NULL certificate).
 func BuildKAC(k rm.KAC) (*keys_and_cert.KeysAndCert, bool, error) {
+	return BuildKACPad(k, int(k.Block[0]%3))
+}
+
+// BuildKACPad is BuildKAC with the form of the padding argument chosen by the caller (see PaddingForm).
+func BuildKACPad(k rm.KAC, form int) (*keys_and_cert.KeysAndCert, bool, error) {
 	kc, ok, err := BuildKeyCert(k.Cert)
 	if !ok || err != nil {
 		return nil, ok, err
@@ -131,7 +136,7 @@ func BuildKAC(k rm.KAC) (*keys_and_cert.KeysAndCert, bool, error) {
 	if err != nil {
 		return nil, false, nil
 	}
-	kac, err := keys_and_cert.NewKeysAndCert(kc, pk, PaddingArg(k), spk)
+	kac, err := keys_and_cert.NewKeysAndCert(kc, pk, PaddingForm(k, form), spk)
 	return kac, true, err
 }
 
@@ -139,9 +144,13 @@ func BuildKAC(k rm.KAC) (*keys_and_cert.KeysAndCert, bool, error) {
 // legitimately use (chosen by the block's content, so that a case replays identically): exactly
 // the bytes (nil when there are none), an empty but non-nil slice when there are none, or a slice
 // with spare capacity.
-func PaddingArg(k rm.KAC) []byte {
+func PaddingArg(k rm.KAC) []byte { return PaddingForm(k, int(k.Block[0]%3)) }
+
+// PaddingForm: 0 exactly the bytes (nil when there are none), 1 empty but non-nil when there are
+// none, 2 a slice with spare capacity.
+func PaddingForm(k rm.KAC, form int) []byte {
 	p := k.Padding()
-	switch k.Block[0] % 3 {
+	switch form {
 	case 1:
 		if len(p) == 0 {
 			return []byte{}
